@@ -372,3 +372,82 @@ func init() {
 		}
 	}})
 }
+
+// ---------------------------------------------------------------- small-scope enumerator (C01)
+// every program up to a size bound over a reduced alphabet: two variables, two integers, trace!,
+// one binary builtin and each core special form — exhaustive, not sampled.
+
+func enumPrograms(maxSize int, limit int, emit func(MalType)) int {
+	memo := map[int][]MalType{}
+	var bySize func(n int) []MalType
+	bySize = func(n int) []MalType {
+		if v, ok := memo[n]; ok {
+			return v
+		}
+		var out []MalType
+		if n == 1 {
+			out = []MalType{sy("a"), sy("b"), 0, 1, nil}
+			memo[n] = out
+			return out
+		}
+		// unary: (trace! e) (quote e) (def a e) (fn [a] e) is size 1+|e|
+		for _, e := range bySize(n - 1) {
+			out = append(out, call1("trace!", e), call1("def", sy("a"), e))
+			if n-1 <= 2 {
+				out = append(out, call1("quote", e))
+			}
+		}
+		// binary: (+ e1 e2) (do e1 e2) (let [a e1] e2) ((fn [a] e2) e1) (if e1 e2)
+		for i := 1; i <= n-2; i++ {
+			for _, x := range bySize(i) {
+				for _, y := range bySize(n - 1 - i) {
+					out = append(out, call1("+", x, y), ls(sy("do"), x, y), ls(sy("let"), vc(sy("a"), x), y),
+						ls(ls(sy("fn"), vc(sy("a")), y), x), ls(sy("if"), x, y))
+				}
+			}
+		}
+		// ternary: (if c t e), ((fn [a b] body) x y)
+		for i := 1; i <= n-3; i++ {
+			for j := 1; j <= n-2-i; j++ {
+				k := n - 1 - i - j
+				if k < 1 {
+					continue
+				}
+				for _, x := range bySize(i) {
+					for _, y := range bySize(j) {
+						for _, z := range bySize(k) {
+							out = append(out, ls(sy("if"), x, y, z))
+							if len(out) > 400000 {
+								memo[n] = out
+								return out
+							}
+						}
+					}
+				}
+			}
+		}
+		memo[n] = out
+		return out
+	}
+	count := 0
+	for n := 1; n <= maxSize; n++ {
+		for _, p := range bySize(n) {
+			if count >= limit {
+				return count
+			}
+			emit(p)
+			count++
+		}
+	}
+	return count
+}
+
+func init() {
+	register("enum", &evalEngine{gen: func(r *rng, n int, tier string, emit func(string)) {
+		size, limit := 5, n
+		if tier == "thorough" {
+			size = 6
+		}
+		enumPrograms(size, limit, func(p MalType) { emit(evalPayloadChild(p)) })
+	}})
+}
